@@ -495,7 +495,8 @@ def run_property(chk, prop, laws, quick_gen=300, thorough_gen=4000, scns=None, n
             # C11.notifications_match_reference: the same runs (EXPRESS ones too: they are notified like any other)
             want_notes = "C11" in laws and speaks
             pending_runs.append({"probs": probs, "case": case, "hand": hand, "kind": kind,
-                                 "hist": (list(getattr(mon, "final_history", []) or []), len(s.rpc_requests)) if want_hist else None,
+                                 "hist": (list(getattr(mon, "final_history", []) or []), len(s.rpc_requests),
+                                          [q["t"] for q in s.rpc_requests]) if want_hist else None,
                                  "notes": [n["detail"] for n in mon.notes] if want_notes else None,
                                  "mline": (__import__("props.c01", fromlist=["x"]).model_line(scn.machine, scn.data, ea, pl.oracle())
                                            if (pl is not None and (expect is not None or (skip_multi and not hand) or want_hist or want_notes)) else None),
@@ -528,17 +529,20 @@ def run_property(chk, prop, laws, quick_gen=300, thorough_gen=4000, scns=None, n
         probs = pr["probs"]
         if expect is not None:
             probs = probs + expect.post(pr["scn"], pr["fv"], pr["pre"], mo)
-        if skip_multi and not pr["hand"] and mo is not None and mo.get("multiFail"):
+        if skip_multi and not pr["hand"] and mo is not None and mo.get("tieFail" if pr["kind"] == "canonical" else "multiFail"):
             chk.dist("skipped.multiple_failures(C06)")
             continue
         if pr["hist"] is not None and mo is not None:
-            mode, hp, nev = enginerun.compare_history(pr["case"]["machine"], mo, pr["hist"][0], pr["hist"][1])
+            # under the canonical schedule every event is handled the instant it is due: the instants are compared too
+            canon = pr["kind"] == "canonical"
+            mode, hp, nev = enginerun.compare_history(pr["case"]["machine"], mo, pr["hist"][0], pr["hist"][1], timed=canon,
+                                                      request_instants=pr["hist"][2] if canon else None)
             chk.dist("history_vs_reference.%s.%s" % (pr["kind"], mode))
             chk.dist("history_vs_reference.%s.events" % mode, nev)
             if hp:
                 probs = probs + [("C09.history_matches_reference", {"mode": mode, "differences": hp})]
         if pr["notes"] is not None and mo is not None:
-            nmode, np_ = enginerun.compare_notifications(mo, pr["notes"], pr["case"]["input"])
+            nmode, np_ = enginerun.compare_notifications(mo, pr["notes"], pr["case"]["input"], timed=pr["kind"] == "canonical")
             chk.dist("notifications_vs_reference.%s.%s" % (pr["kind"], nmode))
             if np_:
                 probs = probs + [("C11.notifications_match_reference", {"differences": np_})]
